@@ -23,9 +23,11 @@ Init == /\ tid \in 1..Len(Traces) /\ l = 1 /\ A = AInit /\ X = InitOf(Traces[tid
         /\ found = {} /\ pat = {} /\ verdict = "run"
 
 RECURSIVE StripAttrs(_), StripAll(_)
-StripAttrs(t) == [t EXCEPT !.a = <<>>, !.c = StripAll(t.c)]
+StripAttrs(t) == [t EXCEPT !.a = <<>>, !.c = StripAll(t.c), !.n = IF t.k = "doctype" THEN <<>> ELSE @]
 StripAll(ts) == IF ts = <<>> THEN <<>> ELSE <<StripAttrs(ts[1])>> \o StripAll(Tail(ts))
 Collision == "dom-colon-attr-collision"
+DoctypeColon == "dom-doctype-name-colon"
+FindingOf(f) == "finding:" \o (IF Collision \in f THEN Collision ELSE DoctypeColon)
 
 \* patterns outside the modelled discipline (reported, not rejected: the step checks do not depend on them)
 Patterns(w, ev) ==
@@ -40,8 +42,8 @@ Final(tr, w) ==
         aa == AbsA(A, frag).c
     IN IF tr.frag /\ X.nd[Len(X.nd)].k # "frag" THEN "reject:no-fragment-node"
        ELSE IF ax # tr.tree THEN "reject:final-model"
-       ELSE IF aa = tr.tree THEN (IF found # {} THEN "finding:" \o Collision ELSE IF pat = {} THEN "accept" ELSE "accept-with-patterns")
-       ELSE IF found # {} /\ StripAll(aa) = StripAll(tr.tree) THEN "finding:" \o Collision
+       ELSE IF aa = tr.tree THEN (IF found # {} THEN FindingOf(found) ELSE IF pat = {} THEN "accept" ELSE "accept-with-patterns")
+       ELSE IF found # {} /\ StripAll(aa) = StripAll(tr.tree) THEN FindingOf(found)
        ELSE "reject:final-refine"
 
 Step ==
@@ -71,10 +73,11 @@ Step ==
             IN IF bad # "" THEN verdict' = bad /\ UNCHANGED <<tid, l, A, X, found, pat>>
                ELSE IF ev.exc # "" THEN verdict' = "accept-exception" /\ X' = X1 /\ A' = A1 /\ UNCHANGED <<tid, l, found, pat>>
                ELSE /\ l' = l + 1 /\ X' = X1 /\ A' = A1
-                    /\ found' = IF AAttrs(A1, node) # ev.at THEN found \cup {Collision} ELSE found
+                    /\ found' = found \cup (IF AAttrs(A1, node) # ev.at THEN {Collision} ELSE {})
+                                      \cup (IF w = "D" /\ ev.op = "new" /\ ev.k = "doctype" /\ DoctypeName(ev.n) # ev.n THEN {DoctypeColon} ELSE {})
                     /\ pat' = pat \cup Patterns(w, ev)
                     /\ UNCHANGED <<tid, verdict>>
 Done == verdict # "run" /\ UNCHANGED vars
 Next == Step \/ Done
-Report == verdict # "run" => PrintT(ToJson([tid |-> tid, l |-> l, v |-> verdict, p |-> pat]))
+Report == verdict # "run" => PrintT(ToJson([tid |-> tid, l |-> l, v |-> verdict, p |-> pat, f |-> found]))
 =============================================================================
